@@ -713,3 +713,419 @@ Proof.
     destruct (holes_fill nc gc (bb ++ [jof]) T HTN W pc0 _ _ (proj1 BKW) p ra Hin) as [Hin0 HN].
     destruct (HLW _ _ Hin0) as [_ [->|Hp]]; apply HN; apply in_or_app; [right; left; reflexivity|left; exact Hp].
 Qed.
+
+(* ---------- if / else-if / else: pending end-of-if jumps besides the breaks ---------- *)
+Definition CTLx (xs : list N) (st st' : cstate) : Prop :=
+  csym st' = csym st /\
+  exists new newc newb,
+    AOK new /\
+    ccode st' = ccode st ++ encode (strip new) /\
+    cconsts st' = cconsts st ++ newc /\
+    cbreaks st' = cbreaks st ++ map Z.of_N newb /\
+    NoDup newb /\ NoDup xs /\ (forall p, In p newb -> ~ In p xs) /\
+    (forall p, In p (newb ++ xs) -> hole_at new (pcof st) p) /\
+    forall nc gc k, N.of_nat (List.length (cconsts st')) <= nc -> globals_below (csym st) gc ->
+      BOK nc gc new (pcof st) (AH k) (AH k) /\
+      forall p ra, In (p, ra) (holes nc gc new (pcof st) (AH k)) -> ra = AH k /\ In p (newb ++ xs).
+
+Lemma ctlx_of_ctl st st' : CTL st st' -> CTLx [] st st'.
+Proof.
+  intros (S & new & newc & newb & A & C & K & B & ND & H & D). split; [exact S|].
+  exists new, newc, newb. repeat (split; [assumption|]). split; [constructor|]. split; [intros p _ []|].
+  split; [intros p Hp; rewrite app_nil_r in Hp; auto|].
+  intros nc gc k Hnc HG. destruct (D nc gc k Hnc HG) as [BK HL]. split; [exact BK|].
+  intros p ra Hin. rewrite app_nil_r. auto.
+Qed.
+
+Lemma ctlx_trans x1 x2 st st1 st2 : CTLx x1 st st1 -> CTLx x2 st1 st2 -> CTLx (x1 ++ x2) st st2.
+Proof.
+  intros (S1 & n1 & c1 & b1 & A1 & C1 & K1 & B1 & ND1 & NX1 & DJ1 & H1 & D1)
+         (S2 & n2 & c2 & b2 & A2 & C2 & K2 & B2 & ND2 & NX2 & DJ2 & H2 & D2).
+  pose proof (pcof_app st st1 n1 C1 A1) as HP.
+  assert (R1 : forall p, In p (b1 ++ x1) -> pcof st <= p < pcof st1).
+  { intros p Hp. apply H1 in Hp. apply hole_at_range in Hp. lia. }
+  assert (R2 : forall p, In p (b2 ++ x2) -> pcof st1 <= p).
+  { intros p Hp. apply H2 in Hp. apply hole_at_range in Hp. lia. }
+  split; [congruence|]. exists (n1 ++ n2), (c1 ++ c2), (b1 ++ b2).
+  split; [apply aok_app; assumption|].
+  split; [rewrite C2, C1, strip_app; unfold encode; rewrite flat_map_app, app_assoc; reflexivity|].
+  split; [rewrite K2, K1, app_assoc; reflexivity|].
+  split; [rewrite B2, B1, map_app, app_assoc; reflexivity|].
+  split.
+  { apply nodup_app; auto. intros p Hp1 Hp2.
+    specialize (R1 p (in_or_app _ _ _ (or_introl Hp1))). specialize (R2 p (in_or_app _ _ _ (or_introl Hp2))). lia. }
+  split.
+  { apply nodup_app; auto. intros p Hp1 Hp2.
+    specialize (R1 p (in_or_app _ _ _ (or_intror Hp1))). specialize (R2 p (in_or_app _ _ _ (or_intror Hp2))). lia. }
+  split.
+  { intros p Hb Hx. apply in_app_or in Hb. apply in_app_or in Hx. destruct Hb as [Hb|Hb]; destruct Hx as [Hx|Hx].
+    - apply (DJ1 p Hb Hx).
+    - specialize (R1 p (in_or_app _ _ _ (or_introl Hb))). specialize (R2 p (in_or_app _ _ _ (or_intror Hx))). lia.
+    - specialize (R1 p (in_or_app _ _ _ (or_intror Hx))). specialize (R2 p (in_or_app _ _ _ (or_introl Hb))). lia.
+    - apply (DJ2 p Hb Hx). }
+  split.
+  { intros p Hp.
+    assert (In p (b1 ++ x1) \/ In p (b2 ++ x2)) as [Hq|Hq].
+    { apply in_app_or in Hp. destruct Hp as [Hp|Hp]; apply in_app_or in Hp; destruct Hp as [Hp|Hp];
+        [left|right|left|right]; apply in_or_app; auto. }
+    - apply hole_at_app_l. apply H1. exact Hq.
+    - apply hole_at_app_r. rewrite <- HP. apply H2. exact Hq. }
+  intros nc gc k Hnc HG.
+  assert (Hnc1 : N.of_nat (List.length (cconsts st1)) <= nc) by (rewrite K2, app_length in Hnc; lia).
+  destruct (D1 nc gc k Hnc1 HG) as [BK1 HL1].
+  assert (HG1 : globals_below (csym st1) gc) by (rewrite S1; exact HG).
+  destruct (D2 nc gc k Hnc HG1) as [BK2 HL2]. rewrite HP in BK2, HL2.
+  split; [eapply bok_app; eauto|].
+  intros p ra Hin. rewrite (holes_app nc gc n1 n2 (pcof st) (AH k) (AH k) (proj1 BK1)) in Hin.
+  apply in_app_or in Hin. destruct Hin as [Hin|Hin].
+  - destruct (HL1 _ _ Hin) as [E Hq]. split; [assumption|].
+    apply in_app_or in Hq. destruct Hq; apply in_or_app; [left|right]; apply in_or_app; left; assumption.
+  - destruct (HL2 _ _ Hin) as [E Hq]. split; [assumption|].
+    apply in_app_or in Hq. destruct Hq; apply in_or_app; [left|right]; apply in_or_app; right; assumption.
+Qed.
+
+(* closing the if: all end jumps are patched to the end of the statement *)
+Lemma ctlx_close xs st st3 st' : has_gb (csym st) -> CTLx xs st st3 ->
+  patch_all true (map Z.of_N xs) (pos_of st3) st3 = COk st' -> CTL st st'.
+Proof.
+  intros (gc0 & HG0) (S & new & newc & newb & A & C & K & B & ND & NX & DJ & H & D) HP.
+  destruct (D (N.of_nat (List.length (cconsts st3))) gc0 0 (N.le_refl _) HG0) as [[RW _] _].
+  eapply (patch_all_fill _ _ _ xs _ st' new (ccode st) (AH 0) (AH 0) NX C RW) in HP.
+  2:{ intros p Hp. apply H. apply in_or_app. right. exact Hp. }
+  destruct HP as [HT ->]. fold (pcof st).
+  set (T := Z.to_N (pos_of st3)).
+  assert (ET : T = pcof st + total_len (strip new)).
+  { unfold T. rewrite pos_pcof, N2Z.id. apply pcof_app; assumption. }
+  unfold CTL. cbn [ccode cconsts csym cbreaks]. split; [exact S|].
+  destruct xs as [|x0 xs'].
+  - rewrite fill_nil. exists new, newc, newb.
+    split; [exact A|]. split; [reflexivity|]. split; [exact K|]. split; [exact B|]. split; [exact ND|].
+    split; [intros p Hp; apply H; apply in_or_app; left; exact Hp|].
+    intros nc gc k Hnc HG. destruct (D nc gc k Hnc HG) as [BK HL]. split; [exact BK|].
+    intros p ra Hin. destruct (HL _ _ Hin) as [E Hq]. rewrite app_nil_r in Hq. auto.
+  - assert (HTN : T < 65536) by (unfold T; specialize (HT ltac:(discriminate)); lia).
+    exists (fill (x0 :: xs') T new (pcof st)), newc, newb.
+    split; [apply aok_fill; assumption|]. split; [reflexivity|]. split; [exact K|]. split; [exact B|]. split; [exact ND|].
+    split.
+    { intros p Hp. apply hole_at_fill_sel; [apply DJ; exact Hp|]. apply H. apply in_or_app. left. exact Hp. }
+    intros nc gc k Hnc HG. destruct (D nc gc k Hnc HG) as [BK HL]. split.
+    + apply bok_fill; [exact HTN|exact BK|]. intros p ra Hin _. left. destruct (HL _ _ Hin). split; [exact ET|assumption].
+    + intros p ra Hin.
+      destruct (holes_fill nc gc (x0 :: xs') T HTN new (pcof st) _ _ (proj1 BK) p ra Hin) as [Hin0 HN].
+      destruct (HL _ _ Hin0) as [E Hq]. split; [exact E|]. apply in_app_or in Hq. destruct Hq; [assumption|contradiction].
+Qed.
+
+Lemma holes_app_in nc gc a b pc s s1 x : jruns nc gc (strip a) s = Some s1 ->
+  In x (holes nc gc (a ++ b) pc s) ->
+  In x (holes nc gc a pc s) \/ In x (holes nc gc b (pc + total_len (strip a)) s1).
+Proof. intros H Hin. rewrite (holes_app nc gc a b pc s s1 H) in Hin. apply in_app_or. exact Hin. Qed.
+
+Lemma compile_cond_body c b st : compile_cond true c b st =
+  compile_expr true c st >>= fun st1 =>
+  emit true JumpOnFalse [JumpPlaceholderZ] st1 >>= fun st2 =>
+  body_of true b (with_sym (st_push (csym st2)) st2) >>= fun st3 =>
+  emit true Jump [JumpPlaceholderZ] (with_sym (st_pop (csym st3)) st3) >>= fun st4 =>
+  patch true (pos_of st1) (pos_of st4) st4.
+Proof. destruct b; reflexivity. Qed.
+
+(* one `cond / block` of an if statement: leaves its end jump pending *)
+Lemma ctl_cond c b st st' : efrag c = true -> slist_ctl b ->
+  compile_cond true c b st = COk st' -> gsym (csym st) -> has_gb (csym st) ->
+  exists ej, Z.of_N ej = (pos_of st' - 3)%Z /\ CTLx [ej] st st'.
+Proof.
+  intros HF HB HC HG HGB. rewrite compile_cond_body in HC.
+  destruct (compile_expr true c st) as [st1|] eqn:E1; [|discriminate]. cbn [bind] in HC.
+  destruct (emit true JumpOnFalse [JumpPlaceholderZ] st1) as [st2|] eqn:E2; [|discriminate]. cbn [bind] in HC.
+  destruct (body_of true b (with_sym (st_push (csym st2)) st2)) as [st3|] eqn:E3; [|discriminate]. cbn [bind] in HC.
+  destruct (emit true Jump [JumpPlaceholderZ] (with_sym (st_pop (csym st3)) st3)) as [st4|] eqn:E4; [|discriminate]. cbn [bind] in HC.
+  destruct (expr_piece c st st1 HF E1 HGB) as (S1 & B1 & ops & newc & NE & A & C & K & R).
+  apply emit_hole in E2; [|reflexivity]. subst st2. cbn [csym] in E3.
+  assert (HG3 : gsym (st_push (csym st1))) by (apply gsym_push; rewrite S1; exact HG).
+  assert (HGB3 : has_gb (st_push (csym st1))) by (apply has_gb_push; rewrite S1; exact HGB).
+  pose proof (HB _ _ E3 HG3 HGB3) as (Sb & nb & cb & bb & Ab & Cb & Kb & Bb & NDb & Hb & Db).
+  unfold with_sym in Sb, Cb, Kb, Bb, Hb, Db. cbn [ccode cconsts csym cbreaks] in Sb, Cb, Kb, Bb, Hb, Db.
+  apply emit_hole in E4; [|reflexivity]. subst st4. unfold with_sym in HC. cbn [ccode cconsts csym cbreaks] in HC.
+  set (pc0 := pcof st) in *.
+  set (W := solid ops ++ ((true, (JumpOnFalse, 9999)) :: (nb ++ [(true, (Jump, 9999))]))) in *.
+  assert (AW : AOK W).
+  { unfold W. apply aok_app; [exact A|]. constructor; [cbn; lia|]. apply aok_app; [exact Ab|].
+    constructor; [cbn; lia|constructor]. }
+  assert (P1 : pcof st1 = pc0 + total_len ops).
+  { pose proof (pcof_app st st1 (solid ops)) as X. rewrite strip_solid in X. apply X; [first [exact C|rewrite strip_solid; exact C]|exact A]. }
+  set (jof := pc0 + total_len ops) in *. set (bstart := jof + 3).
+  assert (Pb : pcof {| ccode := ccode st1 ++ encode (strip [(true, (JumpOnFalse, 9999))]); cconsts := cconsts st1;
+                       csym := st_push (csym st1); cbreaks := cbreaks st1 |} = bstart).
+  { unfold pcof, bstart. cbn [ccode]. rewrite app_length, Nat2N.inj_add. fold (pcof st1). rewrite P1.
+    rewrite (aok_len [(true, (JumpOnFalse, 9999))]) by (constructor; [cbn; lia|constructor]). reflexivity. }
+  rewrite Pb in Hb, Db.
+  set (ej := bstart + total_len (strip nb)).
+  assert (CW : ccode st3 ++ encode (strip [(true, (Jump, 9999))]) = ccode st ++ encode (strip W)).
+  { rewrite Cb, C. unfold W. rewrite !encode_strip_app, strip_solid.
+    change ((true, (JumpOnFalse, 9999)) :: nb ++ [(true, (Jump, 9999))]) with ([(true, (JumpOnFalse, 9999))] ++ nb ++ [(true, (Jump, 9999))]).
+    rewrite !encode_strip_app, <- !app_assoc. reflexivity. }
+  assert (TW : total_len (strip W) = total_len ops + 3 + total_len (strip nb) + 3).
+  { unfold W. rewrite strip_app, total_len_app, strip_solid, strip_cons, total_len_cons, strip_app, total_len_app.
+    change (ilen_of (JumpOnFalse, 9999)) with 3. change (total_len (strip [(true, (Jump, 9999))])) with (3 + 0). lia. }
+  assert (BW : forall nc gc k, N.of_nat (List.length (cconsts st3)) <= nc -> globals_below (csym st) gc ->
+            BOK nc gc W pc0 (AH k) (AH k) /\
+            forall p ra, In (p, ra) (holes nc gc W pc0 (AH k)) -> ra = AH k /\ (p = jof \/ In p bb \/ p = ej)).
+  { intros nc gc k Hnc HGl.
+    assert (Hnc1 : N.of_nat (List.length (cconsts st1)) <= nc) by (rewrite Kb, app_length in Hnc; lia).
+    pose proof (R nc gc k Hnc1 HGl) as Rc.
+    destruct (runs_bok nc gc ops pc0 k (k + 1) Rc) as [BKc HHc].
+    destruct (bok_hole_jof nc gc jof k) as [BKj HHj].
+    assert (HGl3 : globals_below (st_push (csym st1)) gc) by (apply globals_below_push; rewrite S1; exact HGl).
+    destruct (Db nc gc k Hnc HGl3) as [BKb HLb].
+    destruct (bok_hole_jump nc gc ej k) as [BKe HHe].
+    assert (L2 : jof + total_len (strip [(true, (JumpOnFalse, 9999))]) = bstart).
+    { cbn [strip map snd]. rewrite total_len_cons. unfold total_len, bstart, ilen_of. simpl. lia. }
+    assert (BK2 : BOK nc gc ([(true, (JumpOnFalse, 9999))] ++ nb ++ [(true, (Jump, 9999))]) jof (AH (k + 1)) (AH k)).
+    { eapply bok_app; [exact BKj|]. rewrite L2. eapply bok_app; [exact BKb|]. exact BKe. }
+    split.
+    - unfold W. eapply bok_app; [exact BKc|]. rewrite strip_solid. exact BK2.
+    - intros p ra Hin. unfold W in Hin.
+      apply (holes_app_in nc gc (solid ops) _ pc0 (AH k) (AH (k + 1)) _ (proj1 BKc)) in Hin.
+      destruct Hin as [Hin|Hin]; [rewrite HHc in Hin; destruct Hin|]. rewrite strip_solid in Hin. fold jof in Hin.
+      apply (holes_app_in nc gc [(true, (JumpOnFalse, 9999))] (nb ++ [(true, (Jump, 9999))]) jof (AH (k + 1)) (AH k) _ (proj1 BKj)) in Hin.
+      destruct Hin as [Hin|Hin].
+      { assert (X : In (p, ra) [(jof, AH k)]) by (rewrite <- HHj; exact Hin).
+        destruct X as [Eq|[]]. inversion Eq; subst. split; [reflexivity|left; reflexivity]. }
+      rewrite L2 in Hin.
+      apply (holes_app_in nc gc nb [(true, (Jump, 9999))] bstart (AH k) (AH k) _ (proj1 BKb)) in Hin.
+      destruct Hin as [Hin|Hin].
+      + destruct (HLb _ _ Hin). split; [assumption|right; left; assumption].
+      + fold ej in Hin. assert (X : In (p, ra) [(ej, AH k)]) by (rewrite <- HHe; exact Hin).
+        destruct X as [Eq|[]]. inversion Eq; subst. split; [reflexivity|right; right; reflexivity]. }
+  assert (HJ : hole_at W pc0 jof).
+  { unfold W. apply hole_at_app_r. rewrite strip_solid. fold jof. cbn [hole_at]. left. auto. }
+  assert (HBs : forall p, In p bb -> hole_at W pc0 p).
+  { intros p Hp. unfold W. apply hole_at_app_r. rewrite strip_solid. fold jof. cbn [hole_at]. right.
+    pose proof (hole_at_range _ _ _ (Hb p Hp)) as HR. split; [unfold bstart in HR; lia|].
+    apply hole_at_app_l. replace (jof + ilen_of (JumpOnFalse, 9999)) with bstart by (unfold bstart, ilen_of; simpl; lia).
+    apply Hb. exact Hp. }
+  assert (HE : hole_at W pc0 ej).
+  { unfold W. apply hole_at_app_r. rewrite strip_solid. fold jof. cbn [hole_at]. right.
+    split; [unfold ej, bstart; lia|]. apply hole_at_app_r.
+    replace (jof + ilen_of (JumpOnFalse, 9999)) with bstart by (unfold bstart, ilen_of; simpl; lia). fold ej.
+    cbn [hole_at]. left. auto. }
+  destruct HGB as (gc0 & HG0).
+  destruct (BW (N.of_nat (List.length (cconsts st3))) gc0 0 (N.le_refl _) HG0) as [[RW _] _].
+  assert (EJ : pos_of st1 = Z.of_N jof) by (rewrite pos_pcof, P1; reflexivity). rewrite EJ in HC.
+  match type of HC with patch _ _ ?T0 ?s0 = _ => set (TZ := T0) in *;
+    destruct (patch_fill _ _ jof TZ s0 st' W (ccode st) (AH 0) (AH 0) CW RW HJ HC) as [HT ->] end.
+  set (T := Z.to_N TZ) in *.
+  assert (HTN : T < 65536) by (unfold T; lia).
+  assert (ET : T = pc0 + total_len (strip W)).
+  { unfold T, TZ. rewrite pos_pcof, N2Z.id. unfold pcof at 1. cbn [ccode]. rewrite CW, app_length, Nat2N.inj_add, (aok_len W AW). reflexivity. }
+  exists ej. split.
+  - rewrite pos_pcof. unfold pcof. cbn [ccode]. rewrite app_length, Nat2N.inj_add.
+    fold (pcof st). fold pc0.
+    destruct (fill_frame _ _ [jof] T HTN W pc0 (AH 0) (AH 0) RW) as (_ & _ & TL).
+    rewrite (aok_len _ (aok_fill [jof] T HTN W pc0 AW)), TL, TW. unfold ej, bstart, jof. lia.
+  - unfold CTLx. cbn [ccode cconsts csym cbreaks]. fold pc0.
+    split; [rewrite Sb, S1; apply pop_push_id; exact HG|].
+    exists (fill [jof] T W pc0), (newc ++ cb), bb.
+    split; [apply aok_fill; assumption|]. split; [reflexivity|]. split; [rewrite Kb, K, app_assoc; reflexivity|].
+    split; [rewrite Bb, B1; reflexivity|]. split; [exact NDb|]. split; [constructor; [intros []|constructor]|].
+    split.
+    { intros p Hp [<-|[]]. pose proof (hole_at_range _ _ _ (Hb _ Hp)). unfold ej in *. lia. }
+    split.
+    { intros p Hp. apply hole_at_fill_sel.
+      - intros [<-|[]]. apply in_app_or in Hp. destruct Hp as [Hp|[Eq|[]]].
+        + pose proof (hole_at_range _ _ _ (Hb _ Hp)). unfold bstart in *. lia.
+        + unfold ej, bstart in Eq. lia.
+      - apply in_app_or in Hp. destruct Hp as [Hp|[<-|[]]]; [apply HBs; exact Hp|exact HE]. }
+    intros nc gc k Hnc HGl. destruct (BW nc gc k Hnc HGl) as [BKW HLW]. split.
+    + apply bok_fill; [exact HTN|exact BKW|]. intros p ra Hin _. left. destruct (HLW _ _ Hin). split; [exact ET|assumption].
+    + intros p ra Hin.
+      destruct (holes_fill nc gc [jof] T HTN W pc0 _ _ (proj1 BKW) p ra Hin) as [Hin0 HN].
+      destruct (HLW _ _ Hin0) as [E [-> | [Hp | ->]]]; [exfalso; apply HN; left; reflexivity| |];
+        (split; [exact E|apply in_or_app]); [left; exact Hp|right; left; reflexivity].
+Qed.
+
+(* ---------- a straight-line prefix followed by a loop ---------- *)
+Lemma CTL_of_loop S st st1 st' ops newc :
+  csym st1 = csym st -> cbreaks st1 = cbreaks st -> AOK (solid ops) ->
+  ccode st1 = ccode st ++ encode ops -> cconsts st1 = cconsts st ++ newc ->
+  (forall nc gc k, N.of_nat (List.length (cconsts st1)) <= nc -> globals_below (csym st) gc -> runs nc gc ops k = Some (k + S)) ->
+  LOOPOK S st1 st' -> CTL st st'.
+Proof.
+  intros S1 B1 A C K R (S2 & B2 & new & newc2 & A2 & C2 & K2 & D2).
+  pose proof (pcof_app st st1 (solid ops)) as HP. rewrite strip_solid in HP. specialize (HP C A).
+  split; [congruence|]. exists (solid ops ++ new), (newc ++ newc2), [].
+  split; [apply aok_app; assumption|].
+  split; [rewrite C2, C, encode_strip_app, strip_solid, app_assoc; reflexivity|].
+  split; [rewrite K2, K, app_assoc; reflexivity|].
+  split; [cbn [map]; rewrite app_nil_r; congruence|]. split; [constructor|]. split; [intros p []|].
+  intros nc gc k Hnc HG.
+  assert (Hnc1 : N.of_nat (List.length (cconsts st1)) <= nc) by (rewrite K2, app_length in Hnc; lia).
+  destruct (runs_bok nc gc ops (pcof st) k (k + S) (R nc gc k Hnc1 HG)) as [BK1 HH1].
+  assert (HG1 : globals_below (csym st1) gc) by (rewrite S1; exact HG).
+  destruct (D2 nc gc k Hnc HG1) as [BK2 HH2]. rewrite HP in BK2, HH2.
+  split.
+  - eapply bok_app; [exact BK1|]. rewrite strip_solid. exact BK2.
+  - intros p ra Hin. apply (holes_app_in nc gc (solid ops) new (pcof st) _ _ _ (proj1 BK1)) in Hin.
+    rewrite HH1, strip_solid, HH2 in Hin. destruct Hin as [[]|[]].
+Qed.
+
+(* ---------- the fragment ---------- *)
+Definition ofrag (o : oexpr) : bool := match o with ONoneE => true | OSome e => efrag e end.
+
+Fixpoint cfrag_stmt (s : stmt) : bool :=
+  match s with
+  | SAssign (EVar _) e => efrag e
+  | SEmpty | SBreak => true
+  | SIf c b elifs els =>
+      efrag c && cfrag_slist b && cfrag_clist elifs &&
+      match els with NoElse => true | Else eb => cfrag_slist eb end
+  | SWhile c b => efrag c && cfrag_slist b
+  | SForStep None start stop step b => ofrag start && efrag stop && ofrag step && cfrag_slist b
+  | SForIter None t e b => match t with TStr | TArr | TMap => efrag e && cfrag_slist b | _ => false end
+  | _ => false
+  end
+with cfrag_slist (l : slist) : bool :=
+  match l with SNil => true | SCons s t => cfrag_stmt s && cfrag_slist t end
+with cfrag_clist (l : clist) : bool :=
+  match l with CNil => true | CCons c b t => efrag c && cfrag_slist b && cfrag_clist t end.
+
+Lemma ofrag_expr o d : ofrag o = true -> efrag (match o with OSome e => e | ONoneE => ENum d end) = true.
+Proof. destruct o; simpl; auto. Qed.
+
+Lemma ctl_forstep start stop step b st st' :
+  ofrag start = true -> efrag stop = true -> ofrag step = true -> slist_ctl b ->
+  compile_stmt true (SForStep None start stop step b) st = COk st' -> gsym (csym st) -> has_gb (csym st) -> CTL st st'.
+Proof.
+  intros F1 F2 F3 HB HC HG HGB. cbn [compile_stmt] in HC.
+  destruct (compile_expr true stop st) as [s1|] eqn:E1; [|discriminate]. cbn [bind] in HC.
+  destruct (compile_expr true (match step with OSome e => e | ONoneE => ENum 1 end) s1) as [s2|] eqn:E2; [|discriminate]. cbn [bind] in HC.
+  destruct (compile_expr true (match start with OSome e => e | ONoneE => ENum 0 end) s2) as [s3|] eqn:E3; [|discriminate]. cbn [bind] in HC.
+  destruct (expr_piece _ _ _ F2 E1 HGB) as (S1 & B1 & o1 & c1 & _ & A1 & C1 & K1 & R1).
+  assert (HGB1 : has_gb (csym s1)) by (rewrite S1; exact HGB).
+  destruct (expr_piece _ _ _ (ofrag_expr step 1 F3) E2 HGB1) as (S2 & B2 & o2 & c2 & _ & A2 & C2 & K2 & R2).
+  assert (HGB2 : has_gb (csym s2)) by (rewrite S2, S1; exact HGB).
+  destruct (expr_piece _ _ _ (ofrag_expr start 0 F1) E3 HGB2) as (S3 & B3 & o3 & c3 & _ & A3 & C3 & K3 & R3).
+  assert (HG3 : gsym (csym s3)) by (rewrite S3, S2, S1; exact HG).
+  assert (HGB3 : has_gb (csym s3)) by (rewrite S3, S2, S1; exact HGB).
+  pose proof (for_loop_ok StepRange 3 b s3 st' (or_introl (conj eq_refl eq_refl)) HB HC HG3 HGB3) as HL.
+  apply (CTL_of_loop 3 st s3 st' (o1 ++ o2 ++ o3) (c1 ++ c2 ++ c3)); try congruence.
+  - unfold solid. rewrite !map_app. apply aok_app; [exact A1|]. apply aok_app; [exact A2|exact A3].
+  - rewrite C3, C2, C1, !encode_app, <- !app_assoc. reflexivity.
+  - rewrite K3, K2, K1, <- !app_assoc. reflexivity.
+  - intros nc gc k Hnc HGl.
+    assert (N1 : N.of_nat (List.length (cconsts s1)) <= nc) by (rewrite K3, K2, !app_length in Hnc; lia).
+    assert (N2 : N.of_nat (List.length (cconsts s2)) <= nc) by (rewrite K3, !app_length in Hnc; lia).
+    eapply runs_app; [apply (R1 nc gc k N1 HGl)|].
+    eapply runs_app; [apply (R2 nc gc (k + 1) N2); rewrite S1; exact HGl|].
+    replace (k + 3) with (k + 1 + 1 + 1) by lia. apply (R3 nc gc (k + 1 + 1) Hnc). rewrite S2, S1. exact HGl.
+Qed.
+
+Lemma ctl_foriter t e b st st' :
+  (t = TStr \/ t = TArr \/ t = TMap) -> efrag e = true -> slist_ctl b ->
+  compile_stmt true (SForIter None t e b) st = COk st' -> gsym (csym st) -> has_gb (csym st) -> CTL st st'.
+Proof.
+  intros Ht F HB HC HG HGB. cbn [compile_stmt] in HC.
+  assert (HC' : compile_expr true e st >>= emit_const true (KNum 0) >>= for_loop true None IterRange 2 b = COk st')
+    by (destruct Ht as [->|[->| ->]]; exact HC). clear HC.
+  destruct (compile_expr true e st) as [s1|] eqn:E1; [|discriminate]. cbn [bind] in HC'.
+  destruct (emit_const true (KNum 0) s1) as [s2|] eqn:E2; [|discriminate]. cbn [bind] in HC'.
+  destruct (expr_piece _ _ _ F E1 HGB) as (S1 & B1 & o1 & c1 & _ & A1 & C1 & K1 & R1).
+  destruct (const_sl _ _ _ E2) as (RI & S2 & C2 & K2).
+  assert (B2 : cbreaks s2 = cbreaks s1) by (unfold emit_const in E2; apply emit_breaks in E2; exact E2).
+  assert (HG2 : gsym (csym s2)) by (rewrite S2, S1; exact HG).
+  assert (HGB2 : has_gb (csym s2)) by (rewrite S2, S1; exact HGB).
+  pose proof (for_loop_ok IterRange 2 b s2 st' (or_intror (conj eq_refl eq_refl)) HB HC' HG2 HGB2) as HL.
+  apply (CTL_of_loop 2 st s2 st' (o1 ++ [(Constant, N.of_nat (List.length (cconsts s1)))]) (c1 ++ [KNum 0])); try congruence.
+  - unfold solid. rewrite map_app. apply aok_app; [exact A1|]. constructor; [cbn; exact RI|constructor].
+  - rewrite C2, C1, !encode_app, <- !app_assoc. reflexivity.
+  - rewrite K2, K1, <- !app_assoc. reflexivity.
+  - intros nc gc k Hnc HGl.
+    assert (N1 : N.of_nat (List.length (cconsts s1)) <= nc) by (rewrite K2, !app_length in Hnc; lia).
+    eapply runs_app; [apply (R1 nc gc k N1 HGl)|]. cbn [runs].
+    rewrite sop_ok_const; [f_equal; lia| |exact RI]. rewrite K2, app_length in Hnc. simpl in Hnc. lia.
+Qed.
+
+(* ---------- the mutual induction ---------- *)
+Definition clist_ctl (l : clist) : Prop :=
+  forall jumps st st' jumps', compile_elifs true l jumps st = (COk st', jumps') ->
+    gsym (csym st) -> has_gb (csym st) ->
+    exists xs, jumps' = jumps ++ map Z.of_N xs /\ CTLx xs st st'.
+
+Lemma ctl_if c b elifs els st st' :
+  efrag c = true -> slist_ctl b -> clist_ctl elifs ->
+  (match els with NoElse => True | Else eb => slist_ctl eb end) ->
+  compile_stmt true (SIf c b elifs els) st = COk st' -> gsym (csym st) -> has_gb (csym st) -> CTL st st'.
+Proof.
+  intros F HB HE HL HC HG HGB. cbn [compile_stmt] in HC.
+  destruct (compile_cond true c b st) as [st1|] eqn:E1; [|discriminate]. cbn [bind] in HC.
+  destruct (ctl_cond c b st st1 F HB E1 HG HGB) as (ej & Eej & X1).
+  destruct (compile_elifs true elifs [(pos_of st1 - 3)%Z] st1) as [r jumps] eqn:E2.
+  destruct r as [st2|]; [|discriminate]. cbn [bind] in HC.
+  assert (HG1 : gsym (csym st1)) by (rewrite (proj1 X1); exact HG).
+  assert (HGB1 : has_gb (csym st1)) by (rewrite (proj1 X1); exact HGB).
+  destruct (HE _ _ _ _ E2 HG1 HGB1) as (xs & EJ & X2).
+  assert (HG2 : gsym (csym st2)) by (rewrite (proj1 X2); exact HG1).
+  assert (HGB2 : has_gb (csym st2)) by (rewrite (proj1 X2); exact HGB1).
+  assert (X3 : exists st3, (match els with NoElse => COk st2 | Else eb => compile_block true eb st2 end) = COk st3 /\
+                           CTL st2 st3 /\ patch_all true jumps (pos_of st3) st3 = COk st').
+  { destruct els as [|eb].
+    - cbn [bind] in HC. exists st2. split; [reflexivity|]. split; [apply CTL_refl|exact HC].
+    - destruct (compile_block true eb st2) as [st3|] eqn:E3; [|discriminate]. cbn [bind] in HC.
+      exists st3. split; [reflexivity|]. split; [apply (ctl_block eb st2 st3 HL E3 HG2 HGB2)|exact HC]. }
+  destruct X3 as (st3 & _ & X3 & HP).
+  pose proof (ctlx_trans _ _ _ _ _ X1 (ctlx_trans _ _ _ _ _ X2 (ctlx_of_ctl _ _ X3))) as XA.
+  eapply (ctlx_close _ st st3 st' HGB XA).
+  rewrite EJ, <- Eej in HP. rewrite app_nil_r. exact HP.
+Qed.
+
+Theorem ctl_all :
+  (forall s, cfrag_stmt s = true -> forall st st', compile_stmt true s st = COk st' ->
+             gsym (csym st) -> has_gb (csym st) -> CTL st st') /\
+  (forall l, cfrag_slist l = true -> slist_ctl l) /\
+  (forall l, cfrag_clist l = true -> clist_ctl l) /\
+  (forall o, match o with NoElse => True | Else b => cfrag_slist b = true -> slist_ctl b end).
+Proof.
+  apply stmt_mutind.
+  - (* SDecl *) intros n e HF. discriminate.
+  - (* SAssign *) intros target e HF st st' HC HG HGB. destruct target; try discriminate HF.
+    apply (ctl_assign n e st st' HF HC HGB).
+  - (* SIf *) intros c b Hb elifs He els Ho HF st st' HC HG HGB. cbn [cfrag_stmt] in HF.
+    apply andb_true_iff in HF. destruct HF as [HF F4]. apply andb_true_iff in HF. destruct HF as [HF F3].
+    apply andb_true_iff in HF. destruct HF as [F1 F2].
+    apply (ctl_if c b elifs els st st' F1 (Hb F2) (He F3)); auto.
+    destruct els; [exact I|apply Ho; exact F4].
+  - (* SWhile *) intros c b Hb HF st st' HC HG HGB. cbn [cfrag_stmt] in HF. apply andb_true_iff in HF. destruct HF as [F1 F2].
+    apply (ctl_while c b st st' F1 (Hb F2) HC HG HGB).
+  - (* SForStep *) intros lv start stop step b Hb HF st st' HC HG HGB. cbn [cfrag_stmt] in HF. destruct lv; [discriminate|].
+    apply andb_true_iff in HF. destruct HF as [HF F4]. apply andb_true_iff in HF. destruct HF as [HF F3].
+    apply andb_true_iff in HF. destruct HF as [F1 F2].
+    apply (ctl_forstep start stop step b st st' F1 F2 F3 (Hb F4) HC HG HGB).
+  - (* SForIter *) intros lv t e b Hb HF st st' HC HG HGB. cbn [cfrag_stmt] in HF. destruct lv; [discriminate|].
+    assert (Ht : t = TStr \/ t = TArr \/ t = TMap) by (destruct t; try discriminate HF; auto).
+    assert (HF' : efrag e && cfrag_slist b = true) by (destruct t; try discriminate HF; exact HF).
+    apply andb_true_iff in HF'. destruct HF' as [F1 F2].
+    apply (ctl_foriter t e b st st' Ht F1 (Hb F2) HC HG HGB).
+  - (* SBreak *) intros _ st st' HC _ _. apply (ctl_break st st' HC).
+  - (* SEmpty *) intros _ st st' HC _ _. cbn [compile_stmt] in HC. inversion HC; subst. apply CTL_refl.
+  - (* SBlock *) intros b _ HF. discriminate.
+  - (* SUnsupported *) intros w HF. discriminate.
+  - (* SNil *) intros _ st st' HC _ _. cbn [body_of] in HC. inversion HC; subst. apply CTL_refl.
+  - (* SCons *) intros s Hs t Ht HF st st' HC HG HGB. cbn [cfrag_slist] in HF. apply andb_true_iff in HF. destruct HF as [F1 F2].
+    cbn [body_of] in HC. destruct (compile_stmt true s st) as [st1|] eqn:E1; [|discriminate]. cbn [bind] in HC.
+    pose proof (Hs F1 st st1 E1 HG HGB) as X1. rewrite compile_slist_body in HC.
+    assert (HG1 : gsym (csym st1)) by (rewrite (proj1 X1); exact HG).
+    assert (HGB1 : has_gb (csym st1)) by (rewrite (proj1 X1); exact HGB).
+    apply (CTL_trans st st1 st' X1 (Ht F2 st1 st' HC HG1 HGB1)).
+  - (* CNil *) intros _ jumps st st' jumps' HC _ _. cbn [compile_elifs] in HC. inversion HC; subst.
+    exists []. split; [cbn [map]; rewrite app_nil_r; reflexivity|apply ctlx_of_ctl; apply CTL_refl].
+  - (* CCons *) intros c b Hb t Ht HF jumps st st' jumps' HC HG HGB. cbn [cfrag_clist] in HF.
+    apply andb_true_iff in HF. destruct HF as [HF F3]. apply andb_true_iff in HF. destruct HF as [F1 F2].
+    cbn [compile_elifs] in HC. destruct (compile_cond true c b st) as [st1|] eqn:E1; [|inversion HC].
+    destruct (ctl_cond c b st st1 F1 (Hb F2) E1 HG HGB) as (ej & Eej & X1).
+    assert (HG1 : gsym (csym st1)) by (rewrite (proj1 X1); exact HG).
+    assert (HGB1 : has_gb (csym st1)) by (rewrite (proj1 X1); exact HGB).
+    destruct (Ht F3 _ _ _ _ HC HG1 HGB1) as (xs & EJ & X2).
+    exists (ej :: xs). split; [rewrite EJ, <- Eej, <- app_assoc; reflexivity|].
+    apply (ctlx_trans [ej] xs st st1 st' X1 X2).
+  - (* NoElse *) exact I.
+  - (* Else *) intros b Hb. exact Hb.
+Qed.
